@@ -10,6 +10,18 @@ the events at a layer's two boundaries (see `TR/Model/Stack.lean`). The correspo
 replays the events the real layers produce at every boundary of every stack through it: a
 layer that does something the idiom cannot do (the pinned `self.inner.clone()` followed by a
 call of the never-polled clone; a retry without a readiness poll) is rejected.
+
+**What is proved and what is established by the correspondence.** `LSt` (clone / poll / call), `YSt` (the same plus
+"a readiness error is handed up") and `RSt` (answers, per configuration of the layer) are ACCEPTORS of observed
+boundary events, not executable models of the thirteen layers. The theorems below are of the form "if every layer's part of
+the log is accepted and the caller at boundary 0 behaves, then …" (`Accepted`, `AcceptedFrom`, `(LSt.run {} l).isSome`):
+they show that the acceptors are sound for the property — whatever passes them has the readiness contract at every
+boundary, forwards at most once, answers with the inner answer under the pass-through variants, surfaces readiness
+errors. THAT the real layers' traces are accepted is not a theorem: it is what the correspondence check establishes, case
+by case, by replaying the events the real layers produce (`harness/src/mw_stack.rs`, a `Tap` at every boundary) through
+the acceptors; a rejected event is a reported disagreement. `TR.Stack.denote` (what a stack of configured layers makes
+of one request) is tied to the code in the same way: the driver prints the answer it predicts for every request and the
+check compares it with the answer the real stack gave.
 -/
 namespace TR.Props.C20
 open TR TR.Stack
@@ -17,7 +29,8 @@ open TR TR.Stack
 /-- **Readiness contract, one layer.** Any sequence of events — outer ones from a caller that
 honours the contract, inner ones the layer's idiom allows, in any interleaving, with any
 number of instances, retries, hedged attempts — makes every inner call on an instance that
-has observed readiness since its previous call. -/
+has observed readiness since its previous call. (Conditional on `hacc`: the layer did only what the
+idiom allows — for the real layers that is what the correspondence check establishes.) -/
 theorem layer_contract (l : List LIn) (hacc : (LSt.run {} l).isSome) (hout : Respects (outers l)) :
     Respects (inners l) :=
   Stack.layer_contract l hacc hout
@@ -25,7 +38,8 @@ theorem layer_contract (l : List LIn) (hacc : (LSt.run {} l).isSome) (hout : Res
 /-- **Readiness contract, every stack.** For any number of layers `n` and any global log in
 which each layer only does what the idiom allows: if the caller at boundary 0 honours the
 contract, so does every boundary, down to the wrapped service at boundary `n`. By induction
-over the boundaries, so for *every* stack, not only the documented ones. -/
+over the boundaries, so for *every* stack, not only the documented ones. (Conditional on `hacc : Accepted n g` —
+soundness of the acceptor; that the real layers' logs are accepted is established by the correspondence check.) -/
 theorem stack_contract (n : Nat) (g : List GEv) (hacc : Accepted n g) (h0 : Respects (proj 0 g)) :
     ∀ j, j ≤ n → Respects (proj j g) :=
   Stack.stack_contract n g hacc h0
@@ -393,5 +407,289 @@ example :
       [Op.arrive 1 none ⟨5, .ok⟩, .adv 3600000, .poll 1, .adv 5, .poll 1]).log =
       [.innerCall 1 0, .innerDone 1 0 .ok, .result 1 (.ok 0)] := by
   decide
+
+/-! ## transparent under configuration: what `TR.Stack.denote` says, layer by layer
+
+`denote ctx cfgs k s`: what the stack of configured layers `cfgs` makes of one request whose inner calls have the
+outcomes `s` — (answer, inner calls made, outcomes left). The driver compares its predictions with the real stacks. -/
+
+/-- **A retry layer that allows no retry is not there**: with `max_attempts` 0 or 1 (fixed or per request) the layer is
+the identity on services — the request is forwarded exactly as its inner service is called, and whatever comes back,
+an error the predicate would accept included, is handed up unchanged. -/
+theorem retry_without_retries_is_transparent (ctx : Ctx) (max : Nat) (p : Pred) (inner : Svc) (h : max ≤ 1) :
+    applyL ctx (.retry max p) inner = inner := by
+  have : max - 1 = 0 := by omega
+  simp [applyL, this, retryGo_zero]
+
+/-- **Retry: bounded attempts, the LAST answer, unchanged.** Over the scripted service, for every `max_attempts`, predicate
+and script: at least one and at most `max(max_attempts, 1)` calls are made, and the answer is the scripted service's answer
+to the last of them (a success, an error the predicate rejects, or the error of the last permitted attempt) — as it is. -/
+theorem retry_attempts_bounded_last_answer (ctx : Ctx) (max : Nat) (p : Pred) (k : Nat) (s : List Out) (a : Ans)
+    (k' : Nat) (s' : List Out) (h : applyL ctx (.retry max p) base k s = some (a, k', s')) :
+    k < k' ∧ k' ≤ k + Nat.max max 1 ∧ base (k' - 1) (s.drop (k' - 1 - k)) = some (a, k', s') := by
+  obtain ⟨h1, h2, h3⟩ := retryGo_base p (max - 1) k s a k' s' (by simpa [applyL] using h)
+  refine ⟨h1, ?_, h3⟩
+  have : Nat.max max 1 = if max ≤ 1 then 1 else max := by simp [Nat.max_def]
+  rw [this]; split <;> omega
+
+/-- … and a service that keeps failing with errors the predicate accepts is called exactly `max(max_attempts, 1)` times. -/
+theorem retry_exhausts_attempts (ctx : Ctx) (max : Nat) (p : Pred) (k : Nat) (s : List Out)
+    (hl : Nat.max max 1 ≤ s.length) (hall : ∀ o ∈ s.take (Nat.max max 1), ∃ kd, o = Out.err kd ∧ p.holds kd = true) :
+    ∃ a s', applyL ctx (.retry max p) base k s = some (a, k + Nat.max max 1, s') := by
+  have e : Nat.max max 1 = (max - 1) + 1 := by simp [Nat.max_def]; split <;> omega
+  rw [e] at hl hall
+  obtain ⟨a, s', h⟩ := retryGo_base_exhausts p (max - 1) k s hl hall
+  exact ⟨a, s', by rw [e]; simpa [applyL, Nat.add_assoc] using h⟩
+
+/-- **Fallback never touches a success** — any strategy, any predicate. -/
+theorem fallback_success_passes (ctx : Ctx) (st : Strat) (p : Pred) (inner : Svc) (k k' n : Nat) (s s' : List Out)
+    (h : inner k s = some (.ok n, k', s')) : applyL ctx (.fallback st p) inner k s = some (.ok n, k', s') := by
+  simp [applyL, h]
+
+/-- **An error the `handle` predicate rejects passes through unchanged** — whatever the strategy, the error-mapping
+`exception` strategy included: forwarded once, the inner error under the pass-through variant and nothing else. -/
+theorem fallback_rejected_error_passes_unchanged (ctx : Ctx) (st : Strat) (p : Pred) (inner : Svc) (k k' : Nat)
+    (s s' : List Out) (e : Err) (h : inner k s = some (.err e, k', s')) (hp : p.holds e.kind = false) :
+    applyL ctx (.fallback st p) inner k s = some (.err (e.wrap "fallback"), k', s') := by
+  simp [applyL, h, hp]
+
+/-- … and an error it accepts gets exactly what the strategy makes of it. -/
+theorem fallback_accepted_error_gets_strategy (ctx : Ctx) (st : Strat) (p : Pred) (inner : Svc) (k k' : Nat)
+    (s s' : List Out) (e : Err) (h : inner k s = some (.err e, k', s')) (hp : p.holds e.kind = true) :
+    applyL ctx (.fallback st p) inner k s = some (fallbackAns st ctx.tag e, k', s') := by
+  simp [applyL, h, hp]
+
+/-- **A hedge layer without room for a hedge forwards once**: with `max_hedged_attempts` 0 or 1, whatever the delay
+(zero, huge, none), the one attempt's response comes back unchanged and its error as the layer's report of it. -/
+theorem hedge_without_room_forwards_once (ctx : Ctx) (n : Nat) (d : Option Nat) (inner : Svc) (h : n ≤ 1) :
+    applyL ctx (.hedge n d) inner = through (·.wrap "hedge!all_failed") inner := by
+  simp [applyL, h]
+
+/-- **A hedge that is not due yet has not fired**: hedges allowed, but the request was answered before the delay (a huge one
+in particular) had passed — then by its first attempt, successfully, and that response is handed up unchanged. -/
+theorem hedge_not_due_is_transparent (ctx : Ctx) (n d : Nat) (inner : Svc) (k k' m : Nat) (s s' : List Out)
+    (hd : ctx.span < d) (h : inner k s = some (.ok m, k', s')) :
+    applyL ctx (.hedge n (some d)) inner k s = some (.ok m, k', s') := by
+  by_cases hn : n ≤ 1
+  · simp [applyL, hn, through, h, Ans.mapErr]
+  · simp [applyL, hn, hd, h]
+
+/-- **Limits that cannot be reached leave the layer out of the way**: a rate limiter, bulkhead, adaptive limiter or
+circuit breaker whose capacity covers every call the case can have made so far (or that would have had to wait longer
+than the request took), and a time limiter whose timeout is longer than the whole request took, forward once and
+wrap only errors, in their pass-through variant. -/
+theorem unreachable_limit_is_transparent (ctx : Ctx) (name : String) (cap wait : Nat) (inner : Svc)
+    (h : ctx.demand ≤ cap ∨ ctx.span < wait) :
+    applyL ctx (.guard name cap wait) inner = through (·.wrap name) inner ∧
+    (∀ t, ctx.span < t → applyL ctx (.limiter name t) inner = through (·.wrap name) inner) := by
+  refine ⟨by simp [applyL, h], ?_⟩
+  intro t ht
+  simp [applyL, ht]
+
+/-- **Reconnect that may not reconnect forwards once**: without a policy, without retry after the back-off, or with
+`max_attempts` 0, the layer makes exactly the calls its inner service makes for one call — whatever that call's outcome. -/
+theorem reconnect_without_reconnects_forwards_once (ctx : Ctx) (max : Option Nat) (policy retry : Bool) (inner : Svc)
+    (hcfg : policy = false ∨ retry = false ∨ max = some 0) (k k' : Nat) (s s' : List Out) (a : Ans)
+    (h : inner k s = some (a, k', s')) :
+    (applyL ctx (.reconnect max policy retry) inner k s).map (fun r => r.2) = some (k', s') ∧
+    (∀ n, a = .ok n → applyL ctx (.reconnect max policy retry) inner k s = some (.ok n, k', s')) := by
+  cases a with
+  | ok n => simp [applyL, reconGo, h]
+  | lit t => simp [applyL, reconGo, h]
+  | err e =>
+    refine ⟨?_, fun n h' => by cases h'⟩
+    by_cases hk : (e.kind != 1) = true
+    · simp [applyL, reconGo, h, hk]
+    · rcases hcfg with rfl | rfl | rfl
+      · cases max with
+        | none => simp [applyL, reconGo, h, hk]
+        | some m => by_cases hm : m < 1 <;> simp [applyL, reconGo, h, hk, hm]
+      · cases max with
+        | none => cases policy <;> simp [applyL, reconGo, h, hk]
+        | some m => by_cases hm : m < 1 <;> cases policy <;> simp [applyL, reconGo, h, hk, hm]
+      · simp [applyL, reconGo, h, hk]
+
+/-- **Every stack of configured layers is transparent for a request that triggers none of them** (`quiet`: a retry layer
+without retries or an error its predicate rejects, a fallback whose predicate rejects the error, a hedge without room or not
+due, a limit that cannot be reached, chaos with rates 0, a reconnect layer and no connection failure, the plain wrappers):
+forwarded exactly once, and that call's response — or its error inside exactly the pass-through variants of the layers,
+outermost first — is the answer. For every list of layers, by induction. -/
+theorem untriggered_stack_is_transparent (ctx : Ctx) (o : Out) (ho : o = .ok ∨ ∃ kd, o = .err kd) (ls : List LCfg)
+    (hq : ∀ l ∈ ls, quiet ctx o l = true) (k : Nat) (s : List Out) :
+    denote ctx ls k (o :: s) = some (passAll ls (answerOf o (k + 1)), k + 1, s) :=
+  denote_transparent ctx o ho ls hq k s
+
+/-- Non-vacuity, and the three configurations nobody had drawn: `max_attempts(0)` on a service that fails twice and then
+succeeds — one call, the first error; `exception` + a predicate that rejects the error — untouched; no room for a hedge —
+one call. And what the triggered neighbours do: `max_attempts(2)` on a service that keeps failing: two calls, the second
+error; an accepted error is mapped. -/
+example :
+    let ctx : Ctx := { tag := 7, demand := 3, span := 0 }
+    denote ctx [.retry 0 (.kind 1)] 0 [.err 1, .err 1, .ok] = some (.err ⟨"", 1, 1, ""⟩, 1, [.err 1, .ok]) ∧
+    denote ctx [.fallback .exc (.kind 1)] 0 [.err 2] = some (.err ⟨"fallback(", 2, 1, ")"⟩, 1, []) ∧
+    denote ctx [.hedge 0 (some 3600000)] 0 [.ok] = some (.ok 1, 1, []) ∧
+    denote ctx [.retry 2 (.kind 1)] 0 [.err 1, .err 1, .err 1] = some (.err ⟨"", 1, 2, ""⟩, 2, [.err 1]) ∧
+    denote ctx [.fallback .exc (.kind 1)] 0 [.err 1] = some (.err ⟨"fallback(mapped(", 1, 1, "))"⟩, 1, []) ∧
+    denote ctx [.wrap "bulkhead", .limiter "timelimiter" 3600000, .retry 1 .all, .guard "circuit" 3 0, .bare] 0 [.err 2] =
+      some (.err ⟨"bulkhead(timelimiter(circuit(", 2, 1, ")))"⟩, 1, []) := by
+  refine ⟨rfl, rfl, rfl, rfl, rfl, rfl⟩
+
+/-! ## answers at the boundaries: transparency over the observed log
+
+`RSt` (see `TR/Model/Stack.lean`) is what a layer in a given configuration can do about calls and ANSWERS at its two
+boundaries (`ret k tag r`: the future of a call made for request `tag` has resolved with `r`). Conditional, like the
+contract theorems, on the layer's part of the log being accepted. -/
+
+/-- **Exactly-once, the "at most" half, one layer**: in every configuration that allows one attempt per call (everything
+but a retry / reconnect / hedge layer with room for further attempts), for every accepted sequence of events and every
+request, the layer makes at most as many inner calls as it received outer calls. -/
+theorem layer_forwards_at_most_once (c : LCfg) (hsg : single c = true) (l : List XIn) (hacc : (RSt.run c {} l).isSome)
+    (t : Nat) : cntIC t l ≤ cntOC t l := by
+  obtain ⟨s', hs'⟩ := Option.isSome_iff_exists.mp hacc
+  exact Stack.layer_forwards_at_most_once c hsg l s' hs' t
+
+/-- … and in EVERY configuration answers never outnumber calls: at most one answer per outer call is handed up, and only
+answers of inner calls that were made are used. (With at most one inner call per outer call: the "at least once" half —
+an answer made of an inner answer needs that inner call.) -/
+theorem answers_never_outnumber_calls (c : LCfg) (hc : c ≠ .blackbox) (l : List XIn) (hacc : (RSt.run c {} l).isSome)
+    (t : Nat) : cntOR t l ≤ cntOC t l ∧ cntIR t l ≤ cntIC t l := by
+  obtain ⟨s', hs'⟩ := Option.isSome_iff_exists.mp hacc
+  have hi := rinv_run c l {} s' rinv_init hs'
+  obtain ⟨a1, a2, a3, a4⟩ := moved_run c hc t l {} s' hs'
+  have h1 := hi.ansLe t
+  have h2 := hi.flyEq t
+  simp only at a1 a2 a3 a4
+  constructor <;> omega
+
+/-- **Every answer a layer hands up is made of an answer of its inner service to the same request**, by the rule of its
+configuration (`answerOK`) — or it is the layer's own (`ownOK`: a refusal `name!…`, a stored / shared answer of a cache
+or coalesce layer, a readiness error met by a further attempt). -/
+theorem layer_answer_made_of_inner_answer (c : LCfg) (hc : c ≠ .blackbox) (l : List XIn)
+    (hacc : (RSt.run c {} l).isSome) (k t : Nat) (ro : RVal) (hmem : XIn.outer (.ret k t ro) ∈ l) :
+    (∃ ri a m k', XIn.inner (.ret k' t ri) ∈ l ∧ answerOK c m t ⟨t, a, ri⟩ ro = true) ∨ ∃ s0, ownOK c s0 t ro = true := by
+  obtain ⟨s', hs'⟩ := Option.isSome_iff_exists.mp hacc
+  rcases answers_made_of c hc l {} s' rinv_init hs' k t ro hmem with ⟨ri, a, m, hsrc, hok⟩ | ho
+  · rcases hsrc with h0 | ⟨k', hk'⟩
+    · simp at h0
+    · exact Or.inl ⟨ri, a, m, k', hk', hok⟩
+  · exact Or.inr ho
+
+/-- **Pass-through layers return the inner answer unchanged** but for their variant around an error (`RVal.wrap`: a
+response is never touched): bulkhead, rate limiter, circuit breaker, time limiter, cache, coalesce, adaptive limiter,
+executor; chaos without even that. -/
+theorem passthrough_answer_is_inner_answer (c : LCfg) (f : RVal → RVal) (hp : passR c = some f) (l : List XIn)
+    (hacc : (RSt.run c {} l).isSome) (k t : Nat) (ro : RVal) (hmem : XIn.outer (.ret k t ro) ∈ l) :
+    (∃ ri k', XIn.inner (.ret k' t ri) ∈ l ∧ ro = f ri) ∨ ∃ s0, ownOK c s0 t ro = true := by
+  have hc : c ≠ .blackbox := by intro h; subst h; simp [passR] at hp
+  rcases layer_answer_made_of_inner_answer c hc l hacc k t ro hmem with ⟨ri, a, m, k', hk', hok⟩ | ho
+  · exact Or.inl ⟨ri, k', hk', answerOK_pass c f hp m t ⟨t, a, ri⟩ ro hok⟩
+  · exact Or.inr ho
+
+/-- **Retry returns an attempt's answer unchanged, and only one it may stop at**: a success or an error the predicate
+rejects, or — while the layer serves one call for the request at a time (`m = false`) — the error of attempt number
+`max(max_attempts, 1)`. (The other way an answer arises: the instance failed `poll_ready` before a further attempt.) -/
+theorem retry_answer_is_an_attempts_answer (max : Nat) (p : Pred) (l : List XIn)
+    (hacc : (RSt.run (.retry max p) {} l).isSome) (k t : Nat) (ro : RVal) (hmem : XIn.outer (.ret k t ro) ∈ l) :
+    (∃ a m k', XIn.inner (.ret k' t ro) ∈ l ∧ (p.accepts ro = false ∨ m = true ∨ Nat.max max 1 ≤ a)) ∨
+    ∃ s0, ownOK (.retry max p) s0 t ro = true := by
+  rcases layer_answer_made_of_inner_answer _ (by simp) l hacc k t ro hmem with ⟨ri, a, m, k', hk', hok⟩ | ho
+  · left
+    simp only [answerOK, Bool.and_eq_true, beq_iff_eq, Bool.or_eq_true, Bool.not_eq_true', decide_eq_true_eq] at hok
+    obtain ⟨rfl, hstop⟩ := hok
+    refine ⟨a, m, k', hk', ?_⟩
+    rcases hstop with (h | h) | h
+    · exact Or.inl h
+    · exact Or.inr (Or.inl h)
+    · exact Or.inr (Or.inr h)
+  · exact Or.inr ho
+
+/-- **Fallback over the observed log**: the answer to an inner success is that success; to an inner error the predicate
+rejects, that error in the pass-through variant — for every strategy; to one it accepts, what the strategy makes of it. -/
+theorem fallback_answer_rule (st : Strat) (p : Pred) (l : List XIn) (hacc : (RSt.run (.fallback st p) {} l).isSome)
+    (k t : Nat) (ro : RVal) (hmem : XIn.outer (.ret k t ro) ∈ l) :
+    ∃ ri k', XIn.inner (.ret k' t ri) ∈ l ∧
+      (match ri with
+       | .ok _ _ => ro = ri
+       | .err text => if p.accepts ri then ro = fbVal st t text else ro = ri.wrap "fallback") := by
+  rcases layer_answer_made_of_inner_answer _ (by simp) l hacc k t ro hmem with ⟨ri, a, m, k', hk', hok⟩ | ⟨s0, ho⟩
+  · refine ⟨ri, k', hk', ?_⟩
+    cases ri with
+    | ok v tg => simpa [answerOK] using hok
+    | err text =>
+      simp only [answerOK] at hok
+      split at hok <;> simp_all
+  · simp [ownOK] at ho
+
+/-- **Whole stacks forward at most once**: through any stack of layers none of which has room for a further attempt, the
+wrapped service is called for a request at most as often as the stack was (once, for a caller that sends it once). -/
+theorem stack_forwards_at_most_once (g : List XG) (t : Nat) (cfgs : List LCfg) (hacc : AcceptedFrom g cfgs 0)
+    (hs : ∀ c ∈ cfgs, single c = true) : calls t (xproj cfgs.length g) ≤ calls t (xproj 0 g) := by
+  have := Stack.stack_forwards_at_most_once g t cfgs 0 hacc hs
+  simpa using this
+
+/-- **Whole stacks return the wrapped service's answer**: every answer seen at the top of a stack of pass-through layers
+is `Explained` — the wrapped service's answer to that request inside exactly the pass-through variants of the layers
+above the point where it arose, which is the innermost boundary unless a layer gave the answer itself. By induction over
+the layers: for every stack. -/
+theorem stack_answers_explained (g : List XG) (t : Nat) (cfgs : List LCfg) (hacc : AcceptedFrom g cfgs 0)
+    (hp : ∀ c ∈ cfgs, (passR c).isSome) (k : Nat) (r : RVal) (hmem : XEv.ret k t r ∈ xproj 0 g) :
+    Explained g t cfgs 0 r :=
+  Stack.stack_answers_explained g t cfgs 0 hacc hp k r hmem
+
+/-- Non-vacuity: what a bulkhead over a chaos layer (rates 0) over a failing service produced in the harness — call,
+call, call, and the answer on its way back up — is accepted layer by layer; the request reaches the wrapped service once;
+the answer at the top is explained as `bulkhead(` the wrapped service's error `)`. A bulkhead that hands up something
+else, or forwards twice, is not accepted. -/
+example :
+    let g : List XG := [(0, .ev (.call 1 7)), (1, .ev (.call 1 7)), (2, .ev (.call 1 7)), (2, .ret 0 7 (.err "ierr2:0")),
+      (1, .ret 0 7 (.err "ierr2:0")), (0, .ret 0 7 (.err "bulkhead(ierr2:0)"))]
+    (RSt.run (.wrap "bulkhead") {} (xview 0 g)).isSome ∧ (RSt.run .bare {} (xview 1 g)).isSome ∧
+    calls 7 (xproj 2 g) = 1 ∧
+    (RSt.run (.wrap "bulkhead") {} [.outer (.ev (.call 1 7)), .inner (.ev (.call 1 7)), .inner (.ret 0 7 (.err "ierr2:0")),
+      .outer (.ret 0 7 (.err "ierr2:0"))]).isNone ∧
+    (RSt.run (.wrap "bulkhead") {} [.outer (.ev (.call 1 7)), .inner (.ev (.call 1 7)), .inner (.ev (.call 1 7))]).isNone ∧
+    -- the seeded retry: a second attempt although `max_attempts` is 0
+    (RSt.run (.retry 0 (.kind 1)) {} [.outer (.ev (.call 1 7)), .inner (.ev (.call 1 7)), .inner (.ret 0 7 (.err "ierr1:0")),
+      .inner (.ev (.call 1 7))]).isNone ∧
+    -- the seeded fallback: an error the predicate rejects comes back mapped
+    (RSt.run (.fallback .exc (.kind 1)) {} [.outer (.ev (.call 1 7)), .inner (.ev (.call 1 7)), .inner (.ret 0 7 (.err "ierr2:0")),
+      .outer (.ret 0 7 (.err "fallback(mapped(ierr2:0))"))]).isNone ∧
+    (RSt.run (.fallback .exc (.kind 1)) {} [.outer (.ev (.call 1 7)), .inner (.ev (.call 1 7)), .inner (.ret 0 7 (.err "ierr2:0")),
+      .outer (.ret 0 7 (.err "fallback(ierr2:0)"))]).isSome := by
+  refine ⟨by decide, by decide, by decide, by decide, by decide, by decide, by decide, by decide⟩
+
+/-! ## readiness errors surface as readiness errors -/
+
+/-- **A readiness error of the held inner instance is handed up, at once**: after `poll_ready` of an inner instance that
+the layer holds for a caller has failed, the one event the layer can perform is answering that caller's `poll_ready` with
+an error — not `Pending`, not `Ready`, no call, no clone: a layer cannot swallow the failure or sit on it. -/
+theorem readiness_error_surfaces (y y1 y2 : YSt) (i : Nat) (x : LIn) (hn : y.pend = none) (hh : heldBy y.l i = true)
+    (h1 : y.step (.inner (.poll i .err)) = some y1) (h2 : y1.step x = some y2) :
+    ∃ o, x = .outer (.poll o .err) ∧ y1.l.cur o = some i := by
+  have hp := held_error_is_pending y y1 i hn hh h1
+  obtain ⟨o, hx, hc, _⟩ := pending_error_must_surface y1 y2 i x hp h2
+  exact ⟨o, hx, hc⟩
+
+/-- **… and is never invented**: a layer answers `poll_ready` with an error only when the inner instance it holds for that
+caller has just failed its own `poll_ready`. -/
+theorem readiness_error_not_invented (y y' : YSt) (o : Nat) (h : y.step (.outer (.poll o .err)) = some y') :
+    ∃ i, y.pend = some i ∧ y.l.cur o = some i :=
+  error_answer_needs_inner_error y y' o h
+
+/-- The stronger acceptor refines the old one: whatever `YSt` accepts, `LSt` accepts — so the contract theorems apply. -/
+theorem contract_with_error_surfacing (l : List LIn) (hacc : (YSt.run {} l).isSome) (hout : Respects (outers l)) :
+    Respects (inners l) := by
+  obtain ⟨y', hy⟩ := Option.isSome_iff_exists.mp hacc
+  exact Stack.layer_contract l (by simp [yrun_lrun l {} y' hy]) hout
+
+/-- A layer that swallows a readiness error of its inner service (answers `Pending`), one that sits on it and goes on to
+something else, and one that reports an error nobody below reported are all rejected; handing the error up is accepted. -/
+example :
+    (YSt.run {} [.inner (.poll 0 .err), .outer (.poll 0 .pending)]).isNone ∧
+    (YSt.run {} [.inner (.poll 0 .err), .inner (.poll 0 .ready), .outer (.poll 0 .ready)]).isNone ∧
+    (YSt.run {} [.inner (.poll 0 .pending), .outer (.poll 0 .err)]).isNone ∧
+    (YSt.run {} [.inner (.poll 0 .err), .outer (.poll 0 .err), .inner (.poll 0 .ready), .outer (.poll 0 .ready),
+                 .outer (.call 0 7)]).isSome := by
+  refine ⟨rfl, rfl, rfl, rfl⟩
 
 end TR.Props.C20
